@@ -157,25 +157,39 @@ def probe_one(case, bad):
             if why:
                 bad.append({'case': case, 'whole': o['units'], 'whole_units': len(polls), 'parts': [], 'parts_units': max(lens), 'why': why})
             continue
-        if case['kind'] == 'out_ar':
-            # Output units: no literal zero may reach an audio-rate output unit; what replaces it
-            # must be an output of a DC(0) unit (audio-rate silence)
+        if case['kind'] in ('out_ar', 'out_kr'):
+            # Output units (every class and rate).  (a) audio rate: no literal zero may reach the unit,
+            # what replaces it must be an output of a DC(0) unit;  (b) the channel array is SPLICED:
+            # with a flat channel array there is one unit per combination of the arguments BEFORE the
+            # channels, each carrying every channel after those arguments
             o = run_raw(case)
             if o['err'] is not None:
                 continue
             checked += 1
-            outs = [u for u in o['units'] if u[0][0].startswith(case.get('cls', 'Out') + '/') and u[0][1] == 'audio']
+            fixed = [case[key] for key in ('bus', 'xfade') if case.get(key) is not None]
+            nf = len(fixed)
+            outs = [u for u in o['units'][len(case['pre']):] if u[0][0].startswith(case.get('cls', 'Out') + '/')]
             why = None
-            for u in outs:
-                if any(x[0] == 'K' and x[1] == 0 for x in u[1][1:]):
-                    why = 'a literal zero reaches the output unit: inputs %s' % (u[1],)
-            nz = sum(json.dumps(case['output']).count(z) for z in ('["K", 0]', '["F", 0]', '["B", 0]', '["Z"]'))
-            if why is None and nz and '"T"' not in json.dumps(case['output']):
-                dcs = {i for i, u in enumerate(o['units']) if u[0][0].startswith('DC/') and u[0][1] == 'audio' and len(u[1]) == 1 and u[1][0][:2] == ['K', 0]}
-                if not any(x[0] == 'U' and x[1] in dcs for u in outs for x in u[1][1:]) and outs:
-                    why = 'zeros were given but no output unit reads a DC(0) silence unit'
+            if case['kind'] == 'out_ar':
+                for u in outs:
+                    if any(x[0] == 'K' and x[1] == 0 for x in u[1][nf:]):
+                        why = 'a literal zero reaches the output unit: inputs %s' % (u[1],)
+                nz = sum(json.dumps(case['output']).count(z) for z in ('["K", 0]', '["F", 0]', '["B", 0]', '["Z"]'))
+                if why is None and nz and '"T"' not in json.dumps(case['output']):
+                    dcs = {i for i, u in enumerate(o['units']) if u[0][0].startswith('DC/') and u[0][1] == 'audio' and len(u[1]) == 1 and u[1][0][:2] == ['K', 0]}
+                    if not any(x[0] == 'U' and x[1] in dcs for u in outs for x in u[1][nf:]) and outs:
+                        why = 'zeros were given but no output unit reads a DC(0) silence unit'
+            chans = case['output'][1] if is_list(case['output']) else [case['output']]
+            flat = not any(is_list(x) for x in chans) and not any(is_list(x) for f in fixed if is_list(f) for x in f[1]) \
+                and not any(has_empty(f) for f in fixed)
+            if why is None and flat:
+                combos = max([len(f[1]) for f in fixed if is_list(f)] or [1])
+                if len(outs) != combos:
+                    why = '%d output units for %d combination(s) of the arguments before the %d-channel array' % (len(outs), combos, len(chans))
+                elif any(len(u[1]) != nf + len(chans) for u in outs):
+                    why = 'an output unit has %s inputs, expected %d fixed + %d channels' % ([len(u[1]) for u in outs], nf, len(chans))
             if why:
-                bad.append({'case': case, 'whole': o['units'], 'whole_units': len(o['units']), 'parts': [], 'parts_units': 0, 'why': why})
+                bad.append({'case': case, 'whole': o['units'], 'whole_units': len(outs), 'parts': [], 'parts_units': 0, 'why': why})
             continue
         ss = slots(case)
         lens = [len(get(case, s)[1]) for s in ss if is_list(get(case, s))]
